@@ -2,7 +2,7 @@
 EXTENDS HeaderTools, Json
 Sig == <<IF Len(fields) % 2 = 1 THEN "odd" ELSE "even", IF \E i \in DOMAIN fields : IsSpecies(fields[i]) THEN "species" ELSE "no-species",
          IF \E i \in DOMAIN fields : fields[i] = "Y(H2)_avg" THEN "species-lookalike" ELSE IF \E i \in DOMAIN fields : fields[i] \in {"foo", "bar"} THEN "unknown-names" ELSE "known",
-         IF \E i \in DOMAIN fields : fields[i] = "Y(CH2(S))" THEN "nested-parentheses" ELSE "plain", mode, Len(fields)>>
+         IF \E i \in DOMAIN fields : fields[i] = "Y(CH2(S))" THEN "nested-parentheses" ELSE IF \E i \in DOMAIN fields : fields[i] = "heat release" THEN "blank-in-name" ELSE "plain", mode, Len(fields)>>
 Scenario == [prop |-> "C18", sig |-> Sig, fields |-> fields, mode |-> mode,
              expect |-> [classes |-> {ClassOf(fields[k]) : k \in DOMAIN fields},
                          species |-> {fields[k] : k \in {k \in DOMAIN fields : IsSpecies(fields[k])}}]]
